@@ -243,6 +243,18 @@ func newWorld(cfg Cfg) *world {
 		case "login":
 			err = sess.Regenerate()
 			sess.Set(k, v)
+		case "saveregen":
+			sess.Set(k, v)
+			if err = sess.Save(); err == nil {
+				err = sess.Regenerate()
+			}
+		case "regendestroy":
+			if err = sess.Regenerate(); err == nil {
+				if err = sess.Save(); err == nil {
+					err = sess.Destroy()
+				}
+			}
+			save = false
 		default:
 			panic("harness: unknown act " + act)
 		}
